@@ -745,6 +745,37 @@ def main():
                                   'relative_difference': mn, 'corpus': 'small acute triples'})
         if rads and (max(rads) - min(rads)) / max(rads) > 1e-6:
             welzl_bad.append({'polygon': pts, 'seed_spread': (max(rads) - min(rads)) / max(rads), 'corpus': 'small acute triples'})
+    # D.3b' the same small polygons with a NEAR-TWIN of a supporting vertex: the vertex sits on the 1e-5 degree grid, its twin
+    #      3e-6 degrees nearer the centre in both ordinates (about half a metre) and is listed right after it.  Mechanism
+    #      class: de-duplication / snapping / rounding of the vertices before the enclosing-circle search - of two
+    #      near-coincident positions the one that matters is the one dropped.  Enclosure of EVERY listed vertex to 1e-6 r.
+    twin_n = 0
+    for i in range(12):
+        lat, lon = [35, 50, 62, -45, -58, 20][i % 6], fx2.uniform(-170, 170)
+        d = fx2.uniform(2500, 4500)          # (as D.3b: below about 2 km the library's acos-based radius loses 1e-6 r by itself, D22)
+        base = fx2.uniform(0, 360)
+        brs = [base + fx2.uniform(-15, 15), base + 120 + fx2.uniform(-15, 15), base + 240 + fx2.uniform(-15, 15)]
+        pts = [own_direct(lon, lat, b, d) for b in brs]
+        j = i % 3
+        v = (round(pts[j][0], 5), round(pts[j][1], 5))
+        tw = (v[0] + (3e-6 if lon > v[0] else -3e-6), v[1] + (3e-6 if lat > v[1] else -3e-6))
+        pts = pts[:j] + [v, tw] + pts[j + 1:]
+        P = GeoPolygon([Coordinate(*p) for p in pts])
+        for seed in range(6):
+            pyrandom.seed(seed)
+            r_ = guarded(lambda: P.circumscribing_circle())
+            corpus_n += 1
+            twin_n += 1
+            if r_[0] != 'Ok':
+                welzl_bad.append({'polygon': pts, 'seed': seed, 'raised': r_[1], 'corpus': 'near-twin vertices'}); continue
+            cc = r_[1]
+            c_ = (cc.center.longitude, cc.center.latitude)
+            ex = max(own_hav(v_, c_) - cc.radius for v_ in pts) / cc.radius
+            if ex > 1e-6:
+                welzl_bad.append({'polygon': pts, 'seed': seed, 'radius': cc.radius, 'center': list(c_), 'excess_over_radius': ex,
+                                  'corpus': 'near-twin vertices (two positions half a metre apart, the outer one listed first)'})
+                break
+    ck.cov['welzl_near_twin_checks'] = twin_n
     # D.3c polygons STRADDLING THE ANTIMERIDIAN (vertices on both sides of +-180, none within 0.001 degrees of it: a
     #      vertex exactly at +-180 is a separate matter, see the note below).  Mechanism class: planar lon/lat
     #      arithmetic (orientation, cross products, midpoints) inside the unit-vector algorithm that is only right
